@@ -173,6 +173,19 @@ fn num(x: f64, u: u8) -> CalculationArg {
 /// HashSet-backed in the real code; its result only selects between "error" and "keep the calculation"
 pub fn possibly_compatible_stub(_a: &SassNumber, _b: &SassNumber) -> bool { kani::any() }
 
+/// Cut: once clamp() decides to keep the calculation it collects its arguments into a growing Vec, after which CBMC no
+/// longer sees their variants as concrete and every later step (compatibility pass, drops) explores all CalculationArg
+/// variants (> 25 min, > 14 GB). The kept-calculation path is therefore ended at its first step, `verify_length`; what
+/// is decided is everything up to there: the unit guard and the reduction. Recorded as outside the claim.
+pub fn verify_length_cut(_args: &[CalculationArg], _len: usize, _span: grass_compiler::codemap::Span) -> grass_compiler::Result<()> {
+    kani::cover!(true, "kept_calculation");
+    kani::assume(false);
+    Ok(())
+}
+
+/// error messages print their operands through `core::fmt::write` (does not finish under CBMC); the text is not the subject
+pub fn inspect_number_stub(_n: &SassNumber, _o: &Options, _s: grass_compiler::codemap::Span) -> grass_compiler::Result<String> { Ok(String::new()) }
+
 fn pickm() -> f64 {
     let i: usize = kani::any();
     kani::assume(i < 5);
@@ -203,8 +216,8 @@ pub fn clamp_check<const UMIN: u8, const UVAL: u8, const UMAX: u8>() {
             assert!(n.num.0 == want && index_of(&n.unit) == want_unit, "C16a: clamp() reduced to the wrong operand");
             kani::cover!(true, "reduced");
         }
-        Ok(_) => { kani::cover!(true, "kept_calculation"); }
-        Err(_) => { kani::cover!(true, "rejected"); }
+        Ok(_) => {}
+        Err(_) => {}
     }
     kani::cover!(true, "end");
     core::mem::forget(r);
@@ -219,6 +232,8 @@ macro_rules! cinst {
         #[kani::stub(alloc::fmt::format, fmt_stub)]
         #[kani::stub(grass_compiler::sass_value::Number::convert, convert_stub)]
         #[kani::stub(grass_compiler::sass_value::SassNumber::has_possibly_compatible_units, possibly_compatible_stub)]
+        #[kani::stub(grass_compiler::serializer::inspect_number, inspect_number_stub)]
+        #[kani::stub(grass_compiler::sass_value::SassCalculation::verify_length, verify_length_cut)]
         pub fn $name() { clamp_check::<$a, $b, $c>() }
     };
 }
@@ -235,144 +250,3 @@ cinst!(c16a_clamp_deg_px_px, 21, 0, 0);
 cinst!(c16a_clamp_px_in_em, 0, 2, 7);
 cinst!(c16a_clamp_em_em_em, 7, 7, 7);
 cinst!(c16a_clamp_none_px_in, 34, 0, 2);
-
-// ---- C16b (text level): the real serializer's printed form of an operation tree denotes the tree's value ----
-
-use grass_compiler::verif::serialize_calculation_arg;
-
-/// `op.to_string()` goes through `core::fmt::write` (fn-pointer dispatch over every Display impl, which does not
-/// finish under CBMC). Stub of the blanket `ToString::to_string`: for `BinaryOp` the operator's spelling, read from
-/// the enum discriminant (declaration order, checked natively by `vnative check-binop-layout`); empty otherwise.
-pub fn to_string_stub<T: core::fmt::Display + ?Sized>(x: &T) -> String {
-    if core::any::type_name::<T>().ends_with("BinaryOp") && core::mem::size_of_val(x) == 1 {
-        let d: u8 = unsafe { *(x as *const T as *const u8) };
-        // SingleEq, Equal, NotEqual, GreaterThan, GreaterThanEqual, LessThan, LessThanEqual, Plus, Minus, Mul, Div, Rem, And, Or
-        let b = match d { 7 => b'+', 8 => b'-', 9 => b'*', 10 => b'/', 11 => b'%', _ => b'?' };
-        crate::util::s([b])
-    } else {
-        String::new()
-    }
-}
-
-fn leaf(c: u8) -> Box<CalculationArg> {
-    Box::new(CalculationArg::String(crate::util::s([c])))
-}
-
-/// one operation tree: SIDE 0: a OUTER (b INNER c); SIDE 1: (a INNER b) OUTER c; operators by index into OPS
-fn print_check<const OUTER: usize, const INNER: usize, const SIDE: u8>(compressed: bool) {
-    let env = [q(kani::any::<i8>() as i32), q(kani::any::<i8>() as i32), q(kani::any::<i8>() as i32)];
-    kani::assume(env[0].n >= -4 && env[0].n <= 4 && env[1].n >= -4 && env[1].n <= 4 && env[2].n >= -4 && env[2].n <= 4);
-    let options = Options::default().style(if compressed { grass_compiler::OutputStyle::Compressed } else { grass_compiler::OutputStyle::Expanded });
-    let (outer, inner) = (OPS[OUTER], OPS[INNER]);
-    let (tree, want) = if SIDE == 0 {
-        (CalculationArg::Operation {
-            lhs: leaf(b'a'), op: outer,
-            rhs: Box::new(CalculationArg::Operation { lhs: leaf(b'b'), op: inner, rhs: leaf(b'c') }),
-         }, apply(op_char(outer), env[0], apply(op_char(inner), env[1], env[2])))
-    } else {
-        (CalculationArg::Operation {
-            lhs: Box::new(CalculationArg::Operation { lhs: leaf(b'a'), op: inner, rhs: leaf(b'b') }),
-            op: outer, rhs: leaf(b'c'),
-         }, apply(op_char(outer), apply(op_char(inner), env[0], env[1]), env[2]))
-    };
-    let text = serialize_calculation_arg(&tree, &options, span(4));
-    match &text {
-        Ok(t) => {
-            let mut p = P { s: t.as_bytes(), i: 0, env };
-            let got = p.sum();
-            p.ws();
-            assert!(p.i == t.len(), "C16b: trailing bytes in printed calculation");
-            if !got.bad && !want.bad {
-                assert!(same(got, want), "C16b: the printed calculation does not denote the value of the operation tree (missing parentheses?)");
-                kani::cover!(true, "compared");
-            }
-        }
-        Err(_) => assert!(false, "C16b: serializing an operation tree failed"),
-    }
-    kani::cover!(true, "end");
-    core::mem::forget(text);
-    core::mem::forget(tree);
-    core::mem::forget(options);
-}
-
-macro_rules! tinst {
-    ($name:ident, $o:expr, $i:expr, $s:expr, $c:expr) => {
-        #[kani::proof]
-        #[kani::unwind(16)]
-        #[kani::stub(std::hash::RandomState::new, fixed_random_state)]
-        #[kani::stub(alloc::fmt::format, fmt_stub)]
-        #[kani::stub(alloc::string::ToString::to_string, to_string_stub)]
-        pub fn $name() { print_check::<$o, $i, $s>($c) }
-    };
-}
-// OPS = [+, -, *, /]; r = right operand is the inner operation, l = left
-tinst!(c16b_print_minus_plus_r, 1, 0, 0, false);
-tinst!(c16b_print_minus_minus_r, 1, 1, 0, false);
-tinst!(c16b_print_div_mul_r, 3, 2, 0, false);
-tinst!(c16b_print_div_div_r, 3, 3, 0, false);
-tinst!(c16b_print_mul_plus_r, 2, 0, 0, false);
-tinst!(c16b_print_plus_minus_r, 0, 1, 0, false);
-tinst!(c16b_print_mul_minus_l, 2, 1, 1, false);
-tinst!(c16b_print_div_plus_l, 3, 0, 1, false);
-tinst!(c16b_print_minus_minus_l, 1, 1, 1, false);
-tinst!(c16b_print_minus_plus_r_compressed, 1, 0, 0, true);
-tinst!(c16b_print_div_mul_r_compressed, 3, 2, 0, true);
-
-// ---- C16c: sign normalisation of the right operand keeps the value ----
-
-pub fn sign_flip_check<const UL: u8, const UR: u8>() {
-    // magnitudes around zero and the tolerance; the kernel branches only on the sign test
-    let k: usize = kani::any();
-    kani::assume(k < 6);
-    let n: f64 = [-2.0, 3.0, -0.0, 0.0, -1e-12, -0.5][k];
-    let x = pickm();
-    let op = if kani::any() { BinaryOp::Plus } else { BinaryOp::Minus };
-    let options = Options::default();
-    let r = SassCalculation::operate_internal(op, num(x, UL), num(n, UR), false, true, &options, span(0));
-    match &r {
-        Ok(CalculationArg::Operation { lhs, op: op2, rhs }) => {
-            match (&**lhs, &**rhs) {
-                (CalculationArg::Number(l), CalculationArg::Number(rn)) => {
-                    assert!(l.num.0 == x && index_of(&l.unit) == UL && index_of(&rn.unit) == UR, "C16c: operands changed by simplification");
-                    // `L op2 r` must denote the same quantity as `L op n`
-                    let same_op = *op2 == op;
-                    assert!(*op2 == BinaryOp::Plus || *op2 == BinaryOp::Minus, "C16c: operator changed kind");
-                    assert!((same_op && rn.num.0 == n) || (!same_op && rn.num.0 == -n), "C16c: flipping the operator for a negative right operand changed the value");
-                    // normalisation: a clearly negative right operand is printed as a positive one
-                    if n < -1.0000001e-11 { assert!(rn.num.0 > 0.0, "C16c: negative right operand not normalised"); }
-                    kani::cover!(!same_op, "flipped");
-                }
-                _ => assert!(false, "C16c: operands are no longer numbers"),
-            }
-        }
-        Ok(CalculationArg::Number(_)) => {
-            // folded: only allowed for compatible units
-            assert!(convertible(UL, UR) || (UL == NONE && UR == NONE), "C16c: + or - over incompatible units was folded into a number");
-            kani::cover!(true, "folded");
-        }
-        Ok(_) => assert!(false, "C16c: unexpected simplification result"),
-        Err(_) => { kani::cover!(true, "rejected"); }
-    }
-    kani::cover!(true, "end");
-    core::mem::forget(r);
-    core::mem::forget(options);
-}
-
-macro_rules! sinst {
-    ($name:ident, $a:expr, $b:expr) => {
-        #[kani::proof]
-        #[kani::unwind(5)]
-        #[kani::stub(std::hash::RandomState::new, fixed_random_state)]
-        #[kani::stub(alloc::fmt::format, fmt_stub)]
-        #[kani::stub(f64::powi, crate::c07::powi_stub)]
-        #[kani::stub(grass_compiler::sass_value::Number::convert, convert_stub)]
-        #[kani::stub(grass_compiler::sass_value::SassNumber::has_possibly_compatible_units, possibly_compatible_stub)]
-        #[kani::stub(grass_compiler::value::sass_number::conversion_factor, conversion_factor_stub)]
-        pub fn $name() { sign_flip_check::<$a, $b>() }
-    };
-}
-// % = 33, px = 0, em = 7, none = 34
-sinst!(c16c_sign_percent_px, 33, 0);
-sinst!(c16c_sign_px_em, 0, 7);
-sinst!(c16c_sign_px_px, 0, 0);
-sinst!(c16c_sign_none_px, 34, 0);
